@@ -581,6 +581,7 @@ C18_CORPUS = {
         ("MC_Nav.tla", "MC_Nav.cfg", _nav(3, 3, "ValsInt1", "NamesAB", "LookAB", "OpsReuse", "RootsOA")),
         ("MC_Stream.tla", "MC_Stream.cfg", dict(K=3, MaxD=2, Sigma="SigmaS", Names="NamesS", Roots="RootsOA", HistK=0)),
         ("MC_Safety.tla", "MC_Safety.cfg", _saf(1, 3, "MaxDs12", "SigmaTok", "FillsQ")),
+        ("MC_Safety.tla", "MC_Safety.cfg", _saf(2, 3, "MaxDs2", "SigmaNest", "FillsFF")),
         ("MC_Verify.tla", "MC_Verify.cfg", dict(K=2, MaxDs="MaxDs123", Sigma="SigmaFull", Deep="FALSE")),
         ("MC_Nav.tla", "MC_Nav.cfg", _nav(2, 3, "ValsAll", "NamesRich", "LookAB", "OpsTrans", "RootsOA", 10))]),
     "writer": ("replay_writer", "WBEH ", [("MC_Writer.tla", "MC_Writer.cfg", WRITER_Q),
@@ -618,7 +619,7 @@ def gen_corpus(prop, engine, tier):
                 # must not depend on them; the MemorySanitizer build reports any use of an uninitialised value)
                 lines = [("BEH U " + l[7:]) if (l.startswith("BEH ff ") and i % 2) else l for i, l in enumerate(lines)]
             # keep the corpus at a size all 14 builds can run quickly: every k-th behaviour, seeded offset
-            cap = 30000 if tier == "quick" else 400000
+            cap = 15000 if tier == "quick" else 400000
             if len(lines) > cap:
                 k = len(lines) // cap + 1
                 lines = lines[vlib.SEED % k::k]
@@ -633,6 +634,7 @@ def check_crossbuild(prop, tier, replay):
     for eng in C18_CORPUS:
         corp[eng], a, b = gen_corpus(prop, eng, tier); states += a; trans += b
     progs = [C18_CORPUS[e][0] for e in C18_CORPUS]
+    log("C18: corpus generated after %.0fs" % (time.time() - t0))
 
     def run_config(c):
         name, cc, flags = c
@@ -659,12 +661,14 @@ def check_crossbuild(prop, tier, replay):
 
     with ThreadPoolExecutor(max_workers=7) as ex:
         results = dict(ex.map(run_config, C18_CONFIGS))
+    log("C18: %d builds executed after %.0fs" % (len(C18_CONFIGS), time.time() - t0))
     ref_name = C18_CONFIGS[0][0]; ref = results[ref_name]
     nviol = 0; diffs = []; ub_notes = []
     for name, res in results.items():
         for eng, r in res.items():
             if r["crashes"]:
                 r["sha256"] += "+crashes"       # a behaviour that kills one build is a difference
+            if r["ub_reports"]:
                 ub_notes.append({"build": name, "engine": eng, "reports": r["ub_reports"], "kinds": r["ub_kinds"]})
             if r["sha256"] != ref[eng]["sha256"]:
                 # first differing behaviour
